@@ -10,6 +10,7 @@ import (
 	"io/ioutil"
 	"os"
 	"path/filepath"
+	"regexp"
 	"runtime/debug"
 	"strings"
 	"testing"
@@ -40,6 +41,8 @@ type StructFields struct{}
 func FieldsOf(structType interface{}, fieldNames ...string) StructFields { return StructFields{} }
 `
 
+var frontObRe = regexp.MustCompile(`/(ensures#\d+|requires-preserved#\d+|each#\d+|frame#\d+|loop\d+/inv#\d+|panic#\d+|typeassert#\d+|nilderef#\d+|index#\d+|typednil#\d+)`)
+
 func frontCases() []frontCase {
 	hdr := "//+build wireinject\n\npackage main\n\nimport \"github.com/google/wire\"\n\n"
 	return []frontCase{
@@ -53,6 +56,14 @@ func frontCases() []frontCase {
 			"wire.go": hdr + "func provideInt() int { return 1 }\nfunc inject() int { wire.Build(provideInt, wire.FieldsOf(new(*int), \"x\")); return 0 }\n"}},
 		{name: "MultiValueVarSet", fn: "wire:(*objectCache).get", clause: "index#2", wantErr: true, files: map[string]string{
 			"wire.go": hdr + "func two() (int, wire.ProviderSet) { return 0, wire.ProviderSet{} }\nvar a, Set = two()\nfunc provideInt() int { return 1 }\nfunc inject() int { wire.Build(provideInt, Set); return a }\n"}},
+		{name: "BindPointerReceiver", fn: "wire:processBind", clause: "*", wantErr: true, files: map[string]string{
+			"wire.go": hdr + "type Fooer interface{ Foo() }\ntype Bar struct{}\nfunc (b *Bar) Foo() {}\nfunc provideBar() Bar { return Bar{} }\nfunc inject() Fooer { wire.Build(provideBar, wire.Bind(new(Fooer), new(Bar))); return nil }\n"}},
+		{name: "BindInterfaceToItself", fn: "wire:processBind", clause: "*", wantErr: true, files: map[string]string{
+			"wire.go": hdr + "type Fooer interface{ Foo() }\ntype Bar struct{}\nfunc (b Bar) Foo() {}\nfunc provideFooer() Fooer { return Bar{} }\nfunc inject() Fooer { wire.Build(provideFooer, wire.Bind(new(Fooer), new(Fooer))); return nil }\n"}},
+		{name: "BindNotImplemented", fn: "wire:processBind", clause: "*", wantErr: true, files: map[string]string{
+			"wire.go": hdr + "type Fooer interface{ Foo() }\ntype Bar struct{}\nfunc provideBar() Bar { return Bar{} }\nfunc inject() Fooer { wire.Build(provideBar, wire.Bind(new(Fooer), new(Bar))); return nil }\n"}},
+		{name: "BindWithoutProvider", fn: "wire:buildProviderMap", clause: "*", wantErr: true, files: map[string]string{
+			"wire.go": hdr + "type Fooer interface{ Foo() }\ntype Bar struct{}\nfunc (b Bar) Foo() {}\nfunc provideFooer() Fooer { return Bar{} }\nfunc inject() Fooer { wire.Build(wire.Bind(new(Fooer), new(Bar))); return nil }\n"}},
 		{name: "BuildNil", fn: "wire:(*objectCache).get", clause: "nilderef#2", wantErr: true, files: map[string]string{
 			"wire.go": hdr + "func provideInt() int { return 1 }\nfunc inject() int { wire.Build(provideInt, nil); return 0 }\n"}},
 	}
@@ -108,7 +119,15 @@ func runFrontCase(t *testing.T, c frontCase) (panicked bool, detail string, nerr
 
 func TestReplay_frontend(t *testing.T) {
 	fails := 0
+	obClause := ""
+	if m := frontObRe.FindStringSubmatch(os.Getenv("GOVC_OBLIGATION")); m != nil {
+		obClause = m[1]
+	}
 	for _, c := range frontCases() {
+		if c.clause == "*" {
+			// a semantic case: it witnesses whichever clause of its function failed
+			c.clause = obClause
+		}
 		panicked, detail, nerr, hasContent := runFrontCase(t, c)
 		switch {
 		case panicked:
